@@ -187,6 +187,15 @@ def gen_poly(rng):
         for t in base["terms"]:
             t[1] = [int(rng.integers(0, 2)) for _ in t[1]]
         base["dtype"] = "bool"
+    if kind == "int" and rng.random() < .2:
+        # integer types at their limits: the largest unsigned value is not "-1", the smallest signed value is not "0"
+        # (seeded changes C16-11 / C16-12: +-1 compared after a cast to the coefficient dtype; abs() of the minimum)
+        dt = gen.choice(rng, ["uint8", "uint16", "uint64", "int8", "int16", "int64"])
+        info = numpy.iinfo(dt)
+        base["dtype"] = dt
+        for t in base["terms"]:
+            t[1] = [int(gen.choice(rng, [info.max, info.min, info.max - 1, 1, 0, 2])) if rng.random() < .7 else
+                    (abs(int(v)) if info.min == 0 else int(v)) for v in t[1]]
     # non-contiguous views (p.T) print like any other array of their shape
     base["as"] = "poly_T" if len(shape) >= 2 and rng.random() < .4 else "poly"
     return base
